@@ -33,6 +33,12 @@ rule("C07.k", "an index of one space (variable / mapping row / time step / restr
 rule("C08.f", "a sum of step lengths over the steps of selected mapping rows first reduces the rows to distinct steps (rows are not "
               "steps: two variables per step would count every step twice)", floor=1, props=["C08", "C02"])
 
+rule("C04.i", "the cash flows of an asset are read off the problem: every implementation of dcf() computes -c[i] x[i] from the cost vector of the "
+              "problem it is given - not a second formula from the asset's own parameters and the grid (it would have to repeat the discounting "
+              "with the asset's own rate, the 1 / (samples + 1) of an SLP ...: the value is -c'x, the cash flows then no longer add up to it)", floor=1)
+rule("C05.t", "the report of a storage selects its rows by ownership: asset == self.name (and type 'd'), a conjunction - no alternative (`|`) "
+              "on other columns (the original name kept for wrapped assets, a prefix of the variable name): names are unique within one "
+              "portfolio only, a wrapped asset of the same name would be counted in", floor=1, props=["C05", "C09"])
 rule("C08.n", "coefficients of a restriction row are accumulated per variable over the mapping rows it covers (a variable may have several rows: "
               "coarser frequency, transport): item by item, or with an accumulating construct (np.add.at, bincount, groupby sum) - `row[idx] += w` "
               "with an *array* of variable numbers adds every distinct number once (numpy buffers the fancy-index +=): the shares of a coarse "
@@ -384,7 +390,7 @@ def _rule_for(fn) -> str:
     return "C07.k"
 
 
-@analysis("spaces", ["C15.a", "C15.f", "C13.b", "C04.a", "C07.k", "C08.f", "C08.g", "C08.k", "C08.m", "C15.n", "C08.n"])
+@analysis("spaces", ["C15.a", "C15.f", "C13.b", "C04.a", "C07.k", "C08.f", "C08.g", "C08.k", "C08.m", "C15.n", "C08.n", "C04.i", "C05.t"])
 def run(ctx):
     p = ctx.p
     counts = {}
@@ -465,6 +471,37 @@ def run(ctx):
                                "share of the covered duration (max_take 100 over [Jan 6, Jan 16) on a horizon ending Jan 11: 100 instead of 50)"
                                % au.short(grid[0], 40) if grid else "the origin of the denominator was not recognised", node=d,
                                ok_detail="calendar length of the period")
+    # ================================================================= C04.i every dcf reads the cost vector
+    n_i4 = 0
+    for ci in sorted(p.classes.values(), key=lambda c: c.name):
+        dm = ci.methods.get("dcf")
+        if dm is None:
+            continue
+        n_i4 += 1
+        pname = next((q.name for q in dm.params if q.name not in ("self",)), None)
+        reads_c = any(isinstance(x, ast.Attribute) and x.attr == "c" and au.base_name(x) == pname for x in au.walk_local(dm.node, include_self=False))
+        delegates = any(isinstance(x, ast.Call) and au.method_name(x) == "dcf" for x in au.walk_local(dm.node, include_self=False))
+        ctx.ob("C04.i", dm, "cash flows of %s" % ci.name, reads_c or delegates,
+               "%s.dcf does not read the cost vector of the problem it is given: it recomputes the cash flows from the asset's own data (prices, "
+               "factors, discount factors of the shared grid - which belong to whichever asset was set up last). With an order book at wacc 25 %% "
+               "next to a contract at 0 %% the reported value is 4276 while the table of cash flows sums to 2304" % ci.name, node=dm.node,
+               ok_detail="-c[i] * x[i]" if reads_c else "delegates to another dcf")
+    if n_i4 == 0:
+        ctx.ob("C04.i", "package", "dcf implementations", None, "no dcf method found")
+    # ================================================================= C05.t the storage report selects by ownership only
+    flt = p.fn_opt("Storage.fill_level")
+    if flt is None:
+        ctx.ob("C05.t", "Storage", "fill_level", None, "Storage.fill_level not found")
+    else:
+        ors = [x for x in au.walk_local(flt.node, include_self=False) if isinstance(x, ast.BinOp) and isinstance(x.op, ast.BitOr)
+               and any(isinstance(y, ast.Compare) for y in au.walk_local(x))]
+        owner = any(isinstance(x, ast.Compare) and any(isinstance(y, ast.Subscript) and au.const_str(y.slice) == "asset" for y in [x.left] + x.comparators)
+                    and any(au.path(y) == "self.name" for y in [x.left] + x.comparators) for x in au.walk_local(flt.node, include_self=False))
+        ctx.ob("C05.t", flt, "row selector of the fill level", owner and not ors,
+               ("the rows are selected by `... | %s`: besides the rows the storage owns (asset == self.name) it takes rows that merely carry its name in "
+                "another column - asset names are unique within one portfolio, not across the portfolios wrapped by structured assets: a top-level storage "
+                "'battery' next to a structure with an inner asset 'battery' is reported with the inner asset's dispatch added (level -36 for a size of 4)"
+                % au.short(ors[0].right, 60)) if ors else "no test asset == self.name found", node=(ors[0] if ors else flt.node))
     # ================================================================= C08.n accumulation per variable over mapping rows
     n_n8 = 0
     for fn in sorted(p.all_functions(), key=lambda f: f.qualname):
